@@ -119,6 +119,11 @@ static std::string run(const std::vector<std::string> &t) {
     if (op == "pf") return with(o, [&](auto &rb) { long v = num(2); Elem &r = rb.push_front(Elem(v)); std::string s = "v=" + std::to_string(valueOf(r)); return finish(s); });
     if (op == "eb") return with(o, [&](auto &rb) { Elem &r = rb.emplace_back(num(2)); std::string s = "v=" + std::to_string(valueOf(r)); return finish(s); });
     if (op == "ef") return with(o, [&](auto &rb) { Elem &r = rb.emplace_front(num(2)); std::string s = "v=" + std::to_string(valueOf(r)); return finish(s); });
+    // aliasing pushes: the argument refers to an element of the buffer itself (push_back(rb[i]) is valid use)
+    if (op == "pbs") return with(o, [&](auto &rb) { Elem &r = rb.push_back(rb[(size_t) num(2)]); std::string s = "v=" + std::to_string(valueOf(r)); return finish(s); });
+    if (op == "pfs") return with(o, [&](auto &rb) { Elem &r = rb.push_front(rb[(size_t) num(2)]); std::string s = "v=" + std::to_string(valueOf(r)); return finish(s); });
+    if (op == "ebs") return with(o, [&](auto &rb) { Elem &r = rb.emplace_back(rb[(size_t) num(2)]); std::string s = "v=" + std::to_string(valueOf(r)); return finish(s); });
+    if (op == "efs") return with(o, [&](auto &rb) { Elem &r = rb.emplace_front(rb[(size_t) num(2)]); std::string s = "v=" + std::to_string(valueOf(r)); return finish(s); });
     if (op == "popb") return with(o, [&](auto &rb) { std::string s; { Elem r = rb.pop_back(); s = "v=" + std::to_string(valueOf(r)); } return finish(s); });
     if (op == "popf") return with(o, [&](auto &rb) { std::string s; { Elem r = rb.pop_front(); s = "v=" + std::to_string(valueOf(r)); } return finish(s); });
     if (op == "front") return with(o, [&](auto &rb) { return finish("v=" + std::to_string(valueOf(rb.front()))); });
